@@ -1085,6 +1085,25 @@ func c19Stress(c *harness.Ctx) {
 			time.Sleep(200 * time.Microsecond)
 		}
 	}()
+	// the container's owner adds and removes a function of its own while all this goes on (the
+	// schedule changer may find a name in its snapshot of the keys that is gone a moment later)
+	wg.Add(1)
+	go func() {
+		defer wg.Done()
+		for i := 0; ; i++ {
+			select {
+			case <-stop:
+				return
+			default:
+			}
+			_ = sh.Container.Add("ownerFunction", &stubFn{id: i})
+			if i%3 == 0 {
+				_ = sh.Container.Replace("ownerFunction", &stubFn{id: -i})
+			}
+			sh.Container.Remove("ownerFunction")
+			time.Sleep(50 * time.Microsecond)
+		}
+	}()
 	// epoch notifier + IsActive readers
 	wg.Add(1)
 	go func() {
